@@ -50,7 +50,15 @@ def bn_targets():
             a["running_var"] = Obj("Tensor") if track else None
 
             def bn(ex_, st, args, kw):
-                st.glob["__bn_args"] = tuple(args)
+                # arguments bound as Python binds them to batch_norm's signature, whether the call passes them by position or by name
+                names = ("x", "weight", "bias", "running_mean", "running_var", "training", "momentum", "eps")
+                bound = list(args) + [None] * (len(names) - len(args))
+                given = set(range(len(args)))
+                for k_, v_ in kw.items():
+                    if k_ in names and names.index(k_) not in given:
+                        bound[names.index(k_)] = v_
+                        given.add(names.index(k_))
+                st.glob["__bn_args"] = tuple(bound) if len(given) == len(names) and len(args) <= len(names) else tuple(args)
                 return Opaque("out")
             ex.models["F.batch_norm"] = bn
             return s, [me, Obj("Tensor")], {"me": me, "training": training, "k": k, "mom": mom, "track": track, "rm": a["running_mean"], "rv": a["running_var"]}
